@@ -262,20 +262,18 @@ def run_lines(cmd, reqs, jobs=1, timeout=600):
 # ---------------------------------------------------------------- known findings
 
 def load_known():
-    """known_findings.json (committed, never written at run time) plus per-property fragments
-    known_findings.d/*.json while a property is being built."""
-    files = []
-    p = os.path.join(VERIF, "known_findings.json")
-    if os.path.exists(p):
-        files.append(p)
+    """The committed known-findings files known_findings.d/Cxx.json (one per property: `findings` = open defects
+    that are reported as KNOWN-FINDING, `fixed` = repaired ones, which suppress nothing). Never written at run time.
+    known_findings.json is the merged copy for readers (tools/mkknown.py) and is not read here."""
+    out = {}
     d = os.path.join(VERIF, "known_findings.d")
     if os.path.isdir(d):
-        files += sorted(os.path.join(d, f) for f in os.listdir(d) if f.endswith(".json"))
-    out = {}
-    for p in files:
-        data = json.load(open(p))
-        for f in data.get("findings", []):
-            out[(f["property"], f["key"])] = f
+        for fn in sorted(os.listdir(d)):
+            if not fn.endswith(".json"):
+                continue
+            data = json.load(open(os.path.join(d, fn)))
+            for f in data.get("findings", []):
+                out[(f["property"], f["key"])] = f
     return out
 
 
